@@ -210,6 +210,15 @@ def tablets(run, fx):
                      'the borrowed compressed table')
     flag = [e for _, e in dc.elements() if e['k'] == 'BinaryOperator' and e['op'] == '=' and dc.render(dc.N(e['c'][0])) == 'this->_compressed'
             and dc.strip_all_casts(e['c'][1]).get('v') == 1]
+    # release() chooses the deallocator from _compressed (free for an owned buffer, release_table for a borrowed one): the flag
+    # must still describe the OLD buffer when release() runs
+    early = [f for f in flag if r and not (dc.block_of[r[0]['i']] in dc.dominators()[dc.block_of[f['i']]] and
+                                           (dc.block_of[r[0]['i']] != dc.block_of[f['i']] or dc.pos_of[r[0]['i']] < dc.pos_of[f['i']]))]
+    if early:
+        run.violated('TABLETS', 'decompress releases with the old ownership flag', dc.loc(early[0]), 'Face::Table::decompress sets _compressed = true before release() has run: '
+                     'release() then frees the application\'s borrowed table with free() instead of handing it back through release_table')
+    elif flag and r:
+        run.held('TABLETS', 'decompress releases with the old ownership flag', dc.loc(r[0]), 'release() precedes _compressed = true on every path')
     if flag and dc.block_of[flag[0]['i']] == sb:
         run.held('TABLETS', 'decompress marks ownership', dc.loc(flag[0]), '_compressed = true together with the new _p')
     else:
